@@ -107,6 +107,9 @@ func wsBurstThenClose(e *vh.Env, base int) {
 		if dc == 200 && (len(g) != count || !inOrder) {
 			e.Fail("C11:client-messages-lost:close-after-burst", fmt.Sprintf("a data post of %d text messages of %d KiB was answered 200 and followed at once by close (answered %d); the slowly reading backend received %d of them (in order: %v) before its connection ended with: %v", count, size>>10, cc, len(g), inOrder, endErr), base+r, nil, len(g), count)
 		}
+		if dc == 200 && cc == 200 && endErr != nil && strings.Contains(endErr.Error(), "still open") {
+			e.Fail("C12:close-did-not-close-backend", fmt.Sprintf("a session with %d messages of %d KiB still queued towards a slowly reading backend was closed (close answered 200); the backend received %d messages and its websocket was still open 20 s later", count, size>>10, len(g)), base+r, nil, nil, nil)
+		}
 		if dc != 200 {
 			e.Fail("C11:data-failed", fmt.Sprintf("data post of %d messages: %d %s", count, dc, dbody), base+r, nil, nil, nil)
 		}
